@@ -37,6 +37,62 @@ def hr_fraction(length):
     return Fraction(length, 5)
 
 
+def reference_refine(hits, neighbour_mode):
+    """the documented refinement written out independently on plain tuples (profile, start, end, score, evalue): sort by position
+    (ties: better score, better e-value, shorter, profile name); overlaps beyond 20% of the longer profile keep the better score,
+    scanning left to right against the last kept hit; same-profile fragments are one domain while their span stays below 1.5
+    profile lengths (all of a profile's hits in normal mode, where the last such run represents the profile; adjacent kept hits in
+    neighbour mode); finally hits longer than half their profile, else the proportionally longest if above a third"""
+    from fractions import Fraction
+
+    def merge(a, b):
+        return (a[0], a[1] if a[1] <= b[1] else b[1], a[2] if a[2] >= b[2] else b[2], a[3] if a[3] >= b[3] else b[3],
+                a[4] if a[4] <= b[4] else b[4])
+
+    def remove_overlapping(items):
+        kept = [items[0]]
+        for item in items[1:]:
+            prev = kept[-1]
+            if item[1] < prev[2] - margin(item[0], prev[0]):
+                if item[3] > prev[3]:
+                    kept[-1] = item
+            else:
+                kept.append(item)
+        return kept
+
+    def within_one_domain(first, other):
+        return other[2] - first[1] < Fraction(3, 2) * LENGTHS[other[0]]
+    items = sorted(hits, key=lambda h: (h[1], -h[3], h[4], h[2], h[0]))
+    if neighbour_mode:
+        items = remove_overlapping(items)
+        merged = [items[0]]
+        for item in items[1:]:
+            if item[0] == merged[-1][0] and within_one_domain(merged[-1], item):
+                merged[-1] = merge(merged[-1], item)
+            else:
+                merged.append(item)
+        items = merged
+    else:
+        runs = {}
+        for item in items:
+            if item[0] in runs and within_one_domain(runs[item[0]], item):
+                runs[item[0]] = merge(runs[item[0]], item)
+            else:
+                runs[item[0]] = item
+        items = remove_overlapping(sorted(runs.values(), key=lambda h: h[1]))
+    complete = [h for h in items if 2 * (h[2] - h[1]) > LENGTHS[h[0]]]
+    if complete:
+        return complete
+    best = None
+    for h in items:
+        # proportional length (e - s) / L, compared by cross-multiplication
+        if best is None or (h[2] - h[1]) * LENGTHS[best[0]] > (best[2] - best[1]) * LENGTHS[h[0]]:
+            best = h
+    if best is not None and 3 * (best[2] - best[1]) > LENGTHS[best[0]]:
+        return [best]
+    return []
+
+
 class Refine(Harness):
     pid, name = "C13", "refine"
     functions = [HR + "refine_hmmscan_results", HR + "gather_by_query", HR + "_remove_overlapping",
@@ -106,12 +162,16 @@ class Refine(Harness):
             hsps = [FakeHSP("cds", var["profiles"][i], v["s%d" % i], v["e%d" % i], v["ev%d" % i], v["sc%d" % i]) for i in perm]
             res = hr.refine_hmmscan_results([FakeQueryResult(hsps)], LENGTHS, neighbour_mode=var["neighbour_mode"])
             outs.append([(h.hit_id, cn(h.query_start), cn(h.query_end), h.bitscore, h.evalue) for h in res.get("cds", [])])
+        ref = reference_refine([(var["profiles"][i], v["s%d" % i], v["e%d" % i], v["sc%d" % i], v["ev%d" % i]) for i in range(k)],
+                               var["neighbour_mode"])
+        outs.append([(h[0], cn(h[1]), cn(h[2]), h[3], h[4]) for h in ref])
         return outs
 
     def post(self, var, v, out):
         if is_raised(out):
             return [("no_raise", False)]
         k = len(var["profiles"])
+        out, ref = out[:-1], out[-1]
         first = out[0]
         same = []
         for other in out[1:]:
@@ -132,6 +192,10 @@ class Refine(Harness):
                     options.append(L.And(h[1] == L.Min([v["s%d" % i] for i in sub]), h[2] == L.Max([v["e%d" % i] for i in sub]),
                                          h[3] == L.Max([v["sc%d" % i] for i in sub]), h[4] == L.Min([v["ev%d" % i] for i in sub])))
             cl.append(("kept_hit_is_input_or_spanning_merge", L.Or(options)))
+        # which fragments count as one domain, who wins an overlap and which fragments are incomplete: the documented rules
+        cl.append(("result_is_the_documented_refinement",
+                   L.And(len(ref) == len(first), [L.And(a[0] == b[0], a[1] == b[1], a[2] == b[2], a[3] == b[3], a[4] == b[4])
+                                                  for a, b in zip(first, ref)])))
         return cl
 
 
